@@ -33,8 +33,92 @@ func gitOptions() ggen.Options {
 	return ggen.Options{MaxCommits: 7, MaxPaths: 4, PlainSubjects: true, Empty: true}
 }
 
+// genBulkHistory: an import of 9-16 files in one commit (a map of more than eight entries is
+// iterated in any order, not only in rotations of the insertion order; more than ten files in one
+// change-log section), then commits that touch subsets of 1-12 of them, by 2-4 authors on few
+// distinct days (ties in every sort key), under several conventional-commit keywords; a directory
+// move of some files without edits, and deletions.
+func genBulkHistory(t *rapid.T) ggen.History {
+	dirs := []string{"src", "src/core", "docs", "lib"}
+	n := rapid.IntRange(9, 16).Draw(t, "nBulkFiles")
+	var paths []string
+	lines := map[string]int{}
+	for i := 0; i < n; i++ {
+		p := fmt.Sprintf("%s/f%02d.go", dirs[rapid.IntRange(0, len(dirs)-1).Draw(t, "bulkDir")], i)
+		paths = append(paths, p)
+	}
+	authors := []string{"Ann Lee", "Bob 2", "R2D2", "Ann"}[:rapid.IntRange(2, 4).Draw(t, "nBulkAuthors")]
+	subjects := [][2]string{{"fix: update files", "fix"}, {"feat: add tests", "feat"}, {"docs(core): readme", "docs"}, {"cleanup and bump", ""}}
+	day := 0
+	mk := func(subject [2]string) ggen.Commit {
+		day += rapid.IntRange(0, 1).Draw(t, "bulkDays")
+		return ggen.Commit{Author: rapid.SampledFrom(authors).Draw(t, "bulkAuthor"), Date: fmt.Sprintf("2019-03-%02d", 1+day),
+			Clock: "12:00:00", Zone: "+0000", Subject: subject[0], Type: subject[1]}
+	}
+	var h ggen.History
+	c := mk(subjects[rapid.IntRange(0, 1).Draw(t, "importSubject")])
+	for _, p := range paths {
+		k := rapid.IntRange(1, 4).Draw(t, "bulkLines")
+		lines[p] = k
+		c.Ops = append(c.Ops, ggen.Op{Kind: "add", Path: p, Lines: k})
+	}
+	h.Commits = append(h.Commits, c)
+	live := append([]string(nil), paths...)
+	nc := rapid.IntRange(1, 5).Draw(t, "nBulkCommits")
+	for i := 0; i < nc && len(live) > 0; i++ {
+		c := mk(rapid.SampledFrom(subjects).Draw(t, "bulkSubject"))
+		k := rapid.IntRange(1, min(12, len(live))).Draw(t, "bulkTouched")
+		perm := rapid.Permutation(live).Draw(t, "bulkSubset")
+		kind := rapid.IntRange(0, 5).Draw(t, "bulkKind") // 0-3 modify, 4 move to another directory, 5 delete
+		if kind == 5 {
+			k = min(k, 3)
+		}
+		for _, p := range perm[:k] {
+			switch kind {
+			case 4:
+				to := "moved/" + p[strings.LastIndex(p, "/")+1:]
+				if strings.HasPrefix(p, "moved/") {
+					to = "back/" + p[strings.LastIndex(p, "/")+1:]
+				}
+				c.Ops = append(c.Ops, ggen.Op{Kind: "rename", Path: p, To: to})
+				lines[to] = lines[p]
+				for j := range live {
+					if live[j] == p {
+						live[j] = to
+					}
+				}
+			case 5:
+				c.Ops = append(c.Ops, ggen.Op{Kind: "delete", Path: p})
+				for j := range live {
+					if live[j] == p {
+						live = append(live[:j:j], live[j+1:]...)
+						break
+					}
+				}
+			default:
+				ins := rapid.IntRange(1, 3).Draw(t, "bulkIns")
+				c.Ops = append(c.Ops, ggen.Op{Kind: "modify", Path: p, Ins: ins})
+				lines[p] += ins
+			}
+		}
+		h.Commits = append(h.Commits, c)
+	}
+	return h
+}
+
 func genGit(t *rapid.T) GitCase {
-	h := ggen.Gen(t, gitOptions())
+	var h ggen.History
+	switch rapid.IntRange(0, 4).Draw(t, "historyShape") {
+	case 3:
+		h = genBulkHistory(t)
+	case 4:
+		// side branches with merge commits and binary files (printed `-\t-\tpath`)
+		o := gitOptions()
+		o.Merges, o.Binary = true, true
+		h = ggen.Gen(t, o)
+	default:
+		h = ggen.Gen(t, gitOptions())
+	}
 	sim, err := ggen.Simulate(h)
 	if err != nil {
 		panic("c08: generated history does not simulate: " + err.Error())
@@ -144,12 +228,14 @@ func summaryReports(prefix string, msgs []git.CommitMessage) []report {
 	out = append(out, report{prefix + "change-map", "", multiset(lines)})
 	// the printed summary keeps the first ten lines of a section: with more than ten files
 	// the choice among tied lines would be free, so the text is compared only below that
+	var buf bytes.Buffer
+	git.ShowChangeLogSummary(msgs, &buf)
 	if !tooLong {
-		var buf bytes.Buffer
-		git.ShowChangeLogSummary(msgs, &buf)
 		out = append(out, report{prefix + "change-log-text", buf.String(), canonChangeLogText(buf.String())})
 	} else {
-		out = append(out, report{prefix + "change-log-text", "", ""})
+		// a section of more than ten files is cut at ten lines: the lines shown are a collection
+		// that must not depend on the run (as in the tables sub-check)
+		out = append(out, report{prefix + "change-log-text", buf.String(), "cut sections\n" + multiset(strings.Split(strings.TrimSpace(buf.String()), "\n"))})
 	}
 	return out
 }
@@ -199,6 +285,18 @@ func checkGit(c GitCase) pbt.Verdict {
 	if multi {
 		v.Classes = append(v.Classes, "git/commit_with_two_or_more_files")
 	}
+	for _, e := range exp {
+		if len(e.Changes) > 8 {
+			v.Classes = append(v.Classes, "git/commit_with_more_than_eight_files")
+			break
+		}
+	}
+	for _, cm := range c.History.Commits {
+		if cm.Merge {
+			v.Classes = append(v.Classes, "git/has_merge")
+			break
+		}
+	}
 	if rename {
 		v.Classes = append(v.Classes, "git/has_rename")
 	}
@@ -222,8 +320,9 @@ type TablesCase struct {
 
 func genTables(t *rapid.T) TablesCase {
 	var c TablesCase
-	nd := rapid.IntRange(2, 6).Draw(t, "nDirs")
-	dirPool := []string{"core", "web", "docs", "cmd", "util", "api"}
+	// more than eight entries: any iteration order, not only rotations of the insertion order
+	nd := rapid.IntRange(2, 12).Draw(t, "nDirs")
+	dirPool := []string{"core", "web", "docs", "cmd", "util", "api", "api.v1", "api.v2", "build", "x", "core2", "zz"}
 	c.Dirs = dirPool[:nd]
 	nl := rapid.IntRange(1, 3).Draw(t, "nLangs")
 	c.Langs = []string{"Java", "Go", "Markdown"}[:nl]
@@ -235,8 +334,8 @@ func genTables(t *rapid.T) TablesCase {
 		c.Code = append(c.Code, row)
 	}
 	c.Words = map[string]int{}
-	nw := rapid.IntRange(2, 6).Draw(t, "nWords")
-	wordPool := []string{"order", "item", "create", "zeta", "alpha", "beta"}
+	nw := rapid.IntRange(2, 12).Draw(t, "nWords")
+	wordPool := []string{"order", "item", "create", "zeta", "alpha", "beta", "Order", "orders", "a", "id", "ship", "zz"}
 	for i := 0; i < nw; i++ {
 		c.Words[wordPool[i]] = rapid.IntRange(1, 3).Draw(t, "wordCount")
 		c.WordOrder = append(c.WordOrder, wordPool[i])
@@ -244,14 +343,34 @@ func genTables(t *rapid.T) TablesCase {
 	// Go front-end: 2-4 struct types, each declared before its methods
 	var b strings.Builder
 	b.WriteString("package demo\n\n")
-	nt := rapid.IntRange(2, 4).Draw(t, "nGoTypes")
-	typePool := []string{"Order", "Item", "Zeta", "Alpha"}
+	nt := rapid.IntRange(2, 10).Draw(t, "nGoTypes")
+	typePool := []string{"Order", "Item", "Zeta", "Alpha", "Beta", "order", "Items", "Repo", "A", "Zz"}
 	order := rapid.Permutation(typePool[:nt]).Draw(t, "goTypeOrder")
 	for _, name := range order {
-		fmt.Fprintf(&b, "type %s struct {\n\tName string\n}\n\n", name)
+		// 0,1 struct declared before its methods; 2 methods written before the struct; 3 interface
+		shape := rapid.IntRange(0, 3).Draw(t, "goTypeShape")
 		nm := rapid.IntRange(0, 2).Draw(t, "nGoMethods")
-		for k := 0; k < nm; k++ {
-			fmt.Fprintf(&b, "func (x *%s) Do%d() string {\n\treturn x.Name\n}\n\n", name, k)
+		methods := func() {
+			for k := 0; k < nm; k++ {
+				fmt.Fprintf(&b, "func (x *%s) Do%d() string {\n\treturn x.Name\n}\n\n", name, k)
+			}
+		}
+		switch shape {
+		case 3:
+			fmt.Fprintf(&b, "type %s interface {\n\tRun(n int) string\n", name)
+			if nm > 0 {
+				fmt.Fprintf(&b, "\tStop()\n")
+			}
+			fmt.Fprintf(&b, "}\n\n")
+		case 2:
+			methods()
+			fmt.Fprintf(&b, "type %s struct {\n\tName string\n\tSize int\n}\n\n", name)
+		default:
+			fmt.Fprintf(&b, "type %s struct {\n\tName string\n}\n\n", name)
+			methods()
+		}
+		if rapid.IntRange(0, 3).Draw(t, "goPlainFunc") == 0 {
+			fmt.Fprintf(&b, "func New%s() string {\n\treturn \"%s\"\n}\n\n", name, name)
 		}
 	}
 	c.GoCode = b.String()
@@ -324,7 +443,12 @@ func checkTables(c TablesCase) pbt.Verdict {
 				items = append(items, js(canonJSON(decode(js(ds)))))
 				keys = append(keys, ds.NodeName)
 			}
-			return []report{{"go-types-sorted", js(file.DataStructures), sortedRuns(items, keys)}}
+			var members []string
+			for _, m := range file.Members {
+				members = append(members, js(m))
+			}
+			return []report{{"go-types-sorted", js(file.DataStructures), sortedRuns(items, keys)},
+				{"go-file-members", js(file.Members), multiset(members)}}
 		})...)
 	})
 }
